@@ -125,12 +125,30 @@ namespace bxdecay0 {
     double Zdbb;     ///< Atomic number of daughter nucleus (Z>0 for b-b- and Z<0 for b+b+ and eb+ processes)
     double Adbb;     ///< Mass number of daughter nucleus
     int    istartbb; ///< Initialization flag must be =0 for first call of bb for a given mode
+#ifdef BXDECAY0_VERIF
+    double verif_redzone0[8]; ///< Verification hook: poisoned guard cells around the spectrum tables (never read or written)
+#endif
     double spthe1[SPSIZE];
+#ifdef BXDECAY0_VERIF
+    double verif_redzone1[8];
+#endif
     double spthe2[SPSIZE];
+#ifdef BXDECAY0_VERIF
+    double verif_redzone2[8];
+#endif
     double spmax;
 
     /// Default constructor
     bbpars();
+
+#ifdef BXDECAY0_VERIF
+    // Verification hook: the guard cells are poisoned for AddressSanitizer while the object lives, so copies
+    // must step over them and the destructor must hand the memory back unpoisoned.
+    bbpars(const bbpars &);
+    bbpars & operator=(const bbpars &);
+    ~bbpars();
+    void verif_guard(bool on_);
+#endif
 
     /// Reset
     void reset();
